@@ -61,7 +61,7 @@ def _universe(spec, names):
 
 def gen_cells(ck):
     rng = ck.rng
-    n_cells = int(os.environ.get("VERIF_CELLS", "0") or 0) or ck.pick(110, 1800)
+    n_cells = int(os.environ.get("VERIF_CELLS", "0") or 0) or ck.pick(110, 1400)
     cells = []
     combos = [(s, st) for s in C08_SURROGATES for st in C08_STRATEGIES]
     for k in range(n_cells):
